@@ -5,8 +5,11 @@ ROOT = os.path.dirname(os.path.dirname(os.path.abspath(__file__)))
 props = [json.loads(l) for l in open(os.path.join(ROOT, 'properties.jsonl'))]
 ids = [p['id'] for p in props]
 
-TRUST = ("Trusted base: Go toolchain, the build-time overlay rewriter (cmd/vinstrument: clock seam, function-entry points, "
-         "flate counter; never changes control flow), the harness's own generators/oracles. ")
+TRUST = ("Trusted base: Go toolchain, the build-time overlay rewriter (cmd/vinstrument: clock seam, scheduling points before every "
+         "statement and at every function entry, flate counter, sync / channel / select / go operations routed through scheduler-aware "
+         "shims that behave like the originals when no scheduler is installed; control flow is never changed; the shims, the instrumenter "
+         "and the scheduler are themselves checked by a self-test of 13 small concurrent programs with stated outcome sets), the harness's "
+         "own generators/oracles. ")
 
 C = {}
 def claim(id, engine, technique, text, note, design):
@@ -28,21 +31,21 @@ claim('C09', 'devx',
 
 claim('C05', 'devx',
       'exhaustive enumeration: full product of signing configurations x forgery operators x deviation-bounded message shapes, executed on the real SSO handler',
-      'Full product of the 50 signing configurations (SP AuthnRequestsSigned {absent,false,0,true,1} x SP certificate {one,none} x IdP WantAuthRequestsSigned {"",false,0,true,1}) x every valid (base message, forgery operator) pair (8 bases; 18 query-signature and 20 enveloped-signature operators incl. bit flips, edits after signing, stripping, two XSW shapes, Reference/KeyInfo/algorithm substitution, foreign keys, duplicate parameters, binding transplants) x k<=1 (quick) / k<=2 (thorough) further message dimensions. Messages are signed by an honest signer that shares no code with the repository; acceptance is read from the strict storage call log; the oracle compares what was handed to storage with the signed projection.',
+      'Full product of the 50 signing configurations (SP AuthnRequestsSigned {absent,false,0,true,1} x SP certificate {one,none} x IdP WantAuthRequestsSigned {"",false,0,true,1}) x every valid (base message, forgery operator) pair (8 bases; 18 query-signature and 20 enveloped-signature operators incl. bit flips, edits after signing, stripping, two XSW shapes, Reference/KeyInfo/algorithm substitution, foreign keys, duplicate parameters, binding transplants) x k<=1 (quick) / k<=2 (thorough) further message dimensions (incl. a failure of the signing-key lookup during the SSO request: error, nil record, key without certificate, certificate without key); forged requests are also sent after their genuine counterpart on the same provider. Messages are signed by an honest signer that shares no code with the repository; acceptance is read from the strict storage call log; the oracle compares what was handed to storage with the signed projection.',
       'RSA keys; forgery operators are applied singly; known findings (two root causes) are listed in known_findings.json.', '§5 C05')
 
 claim('C06', 'devx',
       'deviation-bounded exhaustive enumeration of request/configuration shapes executed on the real SSO handler with a pinned clock',
-      'Full product of 32 IdP configurations (issuer derivation x SSO endpoint form x transport) x every assignment of 13 message-validity dimensions (base64, DEFLATE, XML root/namespace, Issuer variants, ID, Version, Destination variants, NotBefore/NotOnOrAfter offsets and lexical forms, SAMLEncoding, SigAlg-without-Signature, empty request, Host) with <= 2 (quick) / <= 3 (thorough) deviations. Acceptance is read from the storage call log; the oracle evaluates the necessary conditions of acceptance on the generator ground truth; time cells at exactly now and now +/- 1us are exact because time.Now is pinned through the overlay clock seam.',
+      'Full product of 96 IdP configurations (issuer derivation x SSO endpoint form x transport x storage lookup mode) x every assignment of 14 message-validity dimensions (base64, DEFLATE, XML root/namespace, Issuer variants, ID, Version, Destination variants, NotBefore/NotOnOrAfter offsets and lexical forms incl. numeric zone designators whose digits and instant lie on different sides of now, SAMLEncoding, SigAlg-without-Signature, empty request, Host, failure of the signing-key lookup during the request) with <= 2 (quick) / <= 3 (thorough) deviations. Plus histories on one provider: (valid request) ; p, (valid request) ; SP unregistered ; p, and (valid request under ANOTHER host name) ; p with metadata endpoint default / fixed URL and Destination advertised here / advertised to the other host. Acceptance is read from the storage call log; the oracle evaluates the necessary conditions of acceptance on the generator ground truth; time cells at exactly now and now +/- 1us are exact because time.Now is pinned through the overlay clock seam.',
       'Inputs whose required fate the statement leaves open (trailing bytes after the DEFLATE stream, raw XML on Redirect) are not in the alphabet.', '§5 C06')
 claim('C08', 'bfs-depth2',
       'exhaustive enumeration (full product) of request validity x metadata x storage answers, each as an event history of depth 2 on one real provider',
-      'Full product of 16 request-validity classes (valid x4; failing at each validation step) x 14 SP ACS metadata shapes x 6 requested bindings x 8 storage answers (persist ok / error / empty id / context-deadline / context-canceled; SP-lookup errors), every case executed twice against the same provider; thorough adds a ResponseWriter failing at write 1..3. The oracle is the outcome dichotomy of the statement, evaluated on the decoded reply (x/net/html, raw Location, xt) and the strict storage call log.',
+      'Full product of 16 request-validity classes (valid x4; failing at each validation step) x 19 SP ACS metadata shapes over every binding URI SAML 2.0 names (POST, Redirect, Artifact, PAOS, POST-SimpleSign, SOAP, URI) and an unknown one x 8 requested bindings x 8 storage answers (persist ok / error / empty id / context-deadline / context-canceled; SP-lookup errors), every case executed twice against the same provider; plus a connection that fails at the first Write call / after 100 bytes followed by the same request on a healthy connection, whose reply must equal the reply on a fresh provider (thorough: Write call 1..3, after 1 / 100 / 700 bytes, every storage answer). The oracle is the outcome dichotomy of the statement, evaluated on the decoded reply (x/net/html, raw Location, xt) and the strict storage call log.',
       'The second request of each history is identical to the first; richer histories are explored by C15/C01.', '§5 C08')
 
-claim('C13', 'devx+bfs',
-      'deviation-bounded exhaustive enumeration of logout requests plus exhaustive event histories (depth 2-3) on one real provider',
-      'Every assignment of 15 logout-request / SP-metadata dimensions (Issuer variants, ID, IssueInstant and NotOnOrAfter offsets incl. exactly now and now+1us with a pinned clock, lexical forms, NameID/SessionIndex, transports incl. Redirect with and without SAMLEncoding, undecodable payloads, 7 SingleLogoutService list shapes, host-derived issuer) with <= 3 (quick) / <= 4 (thorough) deviations, each on a fresh provider; plus every history of 2 (quick) / up to 3 (thorough) requests over a 16-request alphabet on one provider with every reply judged (catches state carried between requests; sync.Pool is made a deterministic LIFO by the overlay). Replies are decoded by x/net/html and the harness XML tree, never by the repository decoders.',
+claim('C13', 'devx+bfs+sched',
+      'deviation-bounded exhaustive enumeration of logout requests plus exhaustive event histories (depth 2-3) on one real provider plus stateless exploration of logout || logout || unregistration under the controlled scheduler',
+      'Every assignment of 15 logout-request / SP-metadata dimensions (Issuer variants, ID, IssueInstant and NotOnOrAfter offsets incl. exactly now and now+1us with a pinned clock, lexical forms, NameID/SessionIndex, transports incl. Redirect with and without SAMLEncoding, undecodable payloads, 7 SingleLogoutService list shapes, host-derived issuer) with <= 3 (quick) / <= 4 (thorough) deviations, each on a fresh provider; plus every history of 2 (quick) / up to 3 (thorough) requests over a 16-request alphabet on one provider with every reply judged (catches state carried between requests; sync.Pool is made a deterministic LIFO by the overlay); plus logout ; service provider unregistered ; same logout for every k<=1 shape; plus logout(A) || logout(A) || unregister(A) under the controlled scheduler at statement granularity (preemption bound 1 quick / 2 thorough): a request that started after the removal must get the unregistered-issuer reply, one that finished before it the registered one. IssueInstant / NotOnOrAfter alphabets include numeric zone designators (+02:00, -03:30, -00:15) whose digits and instant lie on different sides of now. Replies are decoded by x/net/html and the harness XML tree, never by the repository decoders.',
       'RelayState values with metacharacters are covered by C17/C18, not here.', '§5 C13')
 
 claim('C02', 'devx+bfs',
@@ -52,7 +55,7 @@ claim('C02', 'devx+bfs',
 
 claim('C12', 'devx',
       'deviation-bounded exhaustive enumeration of SOAP attribute queries x user records executed on the real handler, judged by a reference disclosure model',
-      'Every assignment of 14 dimensions (Issuer registered/other/unregistered/absent; signature none/valid/bit-flipped/edited-after-signing/foreign key/other SP/stripped; Destination advertised/absent/SSO location/foreign/namespace-prefixed; subject known/other/unknown/absent; 13 requested-attribute list shapes with matching, non-matching and duplicate (Name, NameFormat); 7 user-record shapes; serialisation styles; issuer and endpoint configuration) with <= 2 (quick) / <= 3 (thorough) deviations plus the full product requested-list x user-record. The reference model computes the guard conjunction and the expected attribute multiset from the generator ground truth; the reply is decoded with the harness XML tree and the assertion signature is checked by two independent verifiers.',
+      'Every assignment of 14 dimensions (Issuer registered/other/unregistered/absent; signature none/valid/bit-flipped/edited-after-signing/foreign key/other SP/stripped; Destination advertised/absent/SSO location/foreign/namespace-prefixed; subject known/other/unknown/absent; 13 requested-attribute list shapes with matching, non-matching and duplicate (Name, NameFormat); 7 user-record shapes; serialisation styles; issuer and endpoint configuration) with <= 3 (quick) / <= 4 (thorough) deviations plus the full product requested-list x user-record, 15 separator-collision lists (a requested (Name, NameFormat) pair that differs from every attribute of the user but has the same join with | : / # space , ; = @ + - . _ ~ !), and two-step histories on one provider (the same query answered before; the requester unregistered after a first answer). The reference model computes the guard conjunction and the expected attribute multiset from the generator ground truth; the reply is decoded with the harness XML tree and the assertion signature is checked by two independent verifiers.',
       'Signature clause is skipped where signed data contains XML metacharacters (C04 alphabet).', '§5 C12')
 
 claim('C07', 'devx',
@@ -62,27 +65,27 @@ claim('C07', 'devx',
 
 claim('C04', 'devx',
       'exhaustive enumeration of (field, symbol) placements x algorithms x bindings executed on the real handlers; emitted bytes judged by two independent XML-DSig verifiers and a spec-literal redirect verifier',
-      'Every symbol of a 16-string alphabet (& < > " \' CR LF CRLF TAB, blanks, 2/3/4-byte UTF-8, URL metacharacters, ]]>, entity look-alikes) in each of 14 callback fields, the user fields of attribute-query responses and 9 metadata fields, singly (quick) and in all pairs (thorough), x {rsa-sha1, rsa-sha256} x {POST, Redirect} x stored consumer URL {registered, with query, empty} x metadata signing {off, sha1, sha256}; plus records persisted by the SSO endpoint itself followed through the callback. The bytes as sent are verified against the certificate published in the metadata (cross-checked with the certificate endpoint) by goxmldsig and by an own exclusive-C14N verifier - a signature fails only if both reject - or by a literal implementation of the HTTP-Redirect signature procedure over the Location actually sent; every Success reply must carry a verifying signature.',
+      'Every symbol of a 16-string alphabet (& < > " \' CR LF CRLF TAB, blanks, 2/3/4-byte UTF-8, URL metacharacters, ]]>, entity look-alikes) in each of 14 callback fields, the user fields of attribute-query responses and 9 metadata fields, singly (quick) and in all pairs (thorough), x {rsa-sha1, rsa-sha256} x {POST, Redirect} x stored consumer URL {registered, with query, empty} x metadata signing {off, sha1, sha256}; plus records persisted by the SSO endpoint itself followed through the callback; plus key material that does not belong together at the signing call (certificate of another key; private key of another certificate). The bytes as sent are verified against the certificate published in the metadata (cross-checked with the certificate endpoint) by goxmldsig and by an own exclusive-C14N verifier - a signature fails only if both reject - or by a literal implementation of the HTTP-Redirect signature procedure over the Location actually sent; every Success reply must carry a verifying signature.',
       'Known findings (one root cause in the third-party canonicaliser, keyed by position kind and metacharacter) are listed in known_findings.json; strings outside the alphabet are not explored.', '§5 C04')
 
 claim('C03', 'devx+bfs',
       'exhaustive enumeration of (field, symbol) placements x user-record shapes x bindings x configurations on the real callback handler with a pinned clock, plus two-callback histories on one provider',
-      'Stored-request fields (request ID, consumer URL, RelayState, audience) and user-record fields over the 16-symbol alphabet, one field (quick) / two fields (thorough) at a time, x 13 user-record shapes x {POST, Redirect} x 7 issuer/endpoint/time-format/algorithm configurations; IssueInstant, NotBefore, AuthnInstant and both NotOnOrAfter values are compared with exact expected strings because time.Now is pinned through the overlay (one additional real-clock pass with a bracket); response and assertion IDs must be distinct NCNames unseen in the whole run; every ordered pair of user shapes is replayed as a history of two callbacks on one provider so that state carried between sessions (pooled objects) shows. The reply is decoded without the repository decoders and compared with a reference built from the records the storage double served.',
+      'Stored-request fields (request ID, consumer URL, RelayState, audience) and user-record fields over the 16-symbol alphabet, one field (quick) / two fields (thorough) at a time, x 13 user-record shapes x {POST, Redirect} x 7 issuer/endpoint/time-format/algorithm configurations; IssueInstant, NotBefore, AuthnInstant and both NotOnOrAfter values are compared with exact expected strings because time.Now is pinned through the overlay (one additional real-clock pass with a bracket); response and assertion IDs must be distinct NCNames unseen in the whole run; every ordered pair of user shapes is replayed as a history of two callbacks on one provider so that state carried between sessions (pooled objects) shows; environment deviations at the callback: the entity lookup fails while the stored request records an alias spelling of the entity ID, the application is unregistered, the application is reassigned to another entity ID. The reply is decoded without the repository decoders and compared with a reference built from the records the storage double served.',
       'Known finding: RelayState containing CR on the POST binding (HTML newline normalisation).', '§5 C03')
 
 claim('C19', 'devx-full',
       'exhaustive enumeration (full product) of issuer strings and of header/Host/path configurations against the real factories, judged by an RFC 3986 component regex and an own RFC 7239 reading',
-      'A: full product of 2 246 480 issuer strings (scheme x separator x userinfo x host x port x path x query x fragment) x insecure on/off against StaticIssuer (and NewProvider for each accepted string); construction is allowed only for https (any case) or http+insecure, with a non-empty host, no non-empty query and no non-empty fragment, judged on the RFC 3986 appendix-B decomposition (independent of net/url). B: full product of 12 960 derivation cases (configured path x insecure x Host x 15 Forwarded header shapes incl. multiple lines / elements / quoting / malformed x issuer mode x header placement x request path x X-Forwarded-Proto), observed on IssuerFromRequest and on the entityID of the served metadata.',
+      'A: full product of 2 246 480 issuer strings (scheme x separator x userinfo x host x port x path x query x fragment) x insecure on/off against StaticIssuer (and NewProvider for each accepted string); construction is allowed only for https (any case) or http+insecure, with a non-empty host, no non-empty query and no non-empty fragment, judged on the RFC 3986 appendix-B decomposition (independent of net/url). A2: every issuer string with at most one component off the canonical one x 6 prefixes x 9 suffixes of blank / TAB / LF / CRLF / NBSP / EM SPACE / NUL / VT (ASCII control characters anywhere make a string no URL). B2: every sequence of <= 3 requests over 4 forwarding-header placements on one provider x 3 issuer modes: the derived issuer depends on the request alone. B: full product of 32 400 derivation cases (configured path x insecure x Host x 15 Forwarded header shapes incl. multiple lines / elements / quoting / malformed x issuer mode x header placement x request path x X-Forwarded-Proto), observed on IssuerFromRequest and on the entityID of the served metadata.',
       'A bare ? or # is not counted as query/fragment; malformed Forwarded values may resolve either way.', '§5 C19')
 
 claim('C14', 'devx-grid',
       'exhaustive enumeration of a size x placement x validity x entry grid, each case one real request in a fresh worker process with an instrumented inflater',
-      'Grid of inflated sizes {1, 8, 32, 64 MiB; thorough adds 256 MiB and 1 GiB} x padding placement {comment, text, attribute value, after the root element} x surrounding request {valid, invalid} x entry point {SSO query, SSO form, logout form, logout query}. The overlay replaces flate.NewReader by a counting pass-through reader: the bytes one inflater delivers must stay <= 20 MiB, the TotalAlloc delta across ServeHTTP must stay <= 160 MiB (measured in a single-request worker process), and a payload above the bound must not be accepted.',
+      'Grid of inflated sizes {1, 8, 32, 64 MiB; thorough adds 256 MiB and 1 GiB} x padding placement {comment, text, attribute value, after the root element} x surrounding request {valid, invalid} x entry point {SSO query, SSO form, logout form, logout query} x SAMLEncoding declared / omitted; the same data in a zlib (RFC 1950) or gzip container; histories of 16 (thorough 40) identical oversized requests on one process with the last one measured. The overlay replaces flate.NewReader by a counting pass-through reader: the bytes one inflater delivers must stay <= 20 MiB, the TotalAlloc delta across ServeHTTP must stay <= 160 MiB (measured in a worker process), the live heap retained after the request (after GC) must stay <= 48 MiB, and a payload above the bound must not be accepted.',
       'The byte counter sits on compress/flate; if a change swaps the inflater the allocation clause still decides. Ratios/placements outside the grid rest on the observation that the cap is enforced by the reader independent of content.', '§5 C14')
 
-claim('C10', 'faultx',
+claim('C10', 'faultx+sched',
       'exhaustive fault-point enumeration: every storage call occurrence x fault kind, singles and pairs (thorough: triples), on traces re-discovered after every injected fault',
-      'For 26 endpoint scenarios (SSO unsigned/signed/POST-signed/unanswerable, callback POST/Redirect x done/pending/unknown id and x unusable configured algorithms, logout, attribute query unsigned/signed, metadata with signing off/on/unusable algorithm, certificate, ready, healthz) the fault-free run records the ordered storage call trace of the real handler; every call occurrence is then failed with every applicable kind (error, context deadline, context cancellation; key getters additionally nil record, key without certificate, certificate without key, empty certificate, garbage certificate, zero key), and every run that continues past its fault has every later occurrence failed as well. Oracle after the first injected fault: no panic, reply is HTTP 5xx or a non-Success SAML response (attribute query: 5xx), no Success assertion, no user marker anywhere in the reply, no signed metadata after a key failure, no CreateAuthRequest after the failure.',
+      'For 26 endpoint scenarios (SSO unsigned/signed/POST-signed/unanswerable, callback POST/Redirect x done/pending/unknown id and x unusable configured algorithms, logout, attribute query unsigned/signed, metadata with signing off/on/unusable algorithm, certificate, ready, healthz) the fault-free run records the ordered storage call trace of the real handler; every call occurrence is then failed with every applicable kind (error, context deadline, context cancellation; key getters additionally nil record, key without certificate, certificate without key, empty certificate, garbage certificate, zero key, certificate of another key, private key of another certificate), and every run that continues past its fault has every later occurrence failed as well; every plan is also run AFTER the same request was served fault-free by the same provider (state kept from a success must not mask the failure); after every single fault the same request must get the fault-free outcome again; a case whose handler starts goroutines is re-run under the controlled scheduler for every interleaving (preemption bound 1 / 2, statement granularity). Oracle after the first injected fault: no panic, reply is HTTP 5xx or a non-Success SAML response (attribute query: 5xx), no Success assertion, no user marker anywhere in the reply, no signed metadata after a key failure, no CreateAuthRequest after the failure.',
       'Faults are injected at the Storage interface only (the only environment seam of the library).', '§5 C10')
 C['C10']['category'] = 'fault_enumeration'
 
@@ -98,17 +101,17 @@ claim('C18', 'devx',
 
 claim('C11', 'devx+bfs',
       'deviation-bounded exhaustive enumeration of provider configurations, each explored as a fixed multi-request history on one real provider with cross-endpoint agreement oracles',
-      'Every assignment of 16 configuration dimensions (7 issuer forms incl. host- and Forwarded-derived; each of the six endpoints default / custom with and without leading slash / trailing slash / deep path / external URL; WantAuthRequestsSigned in five spellings; encryption algorithm, organisation, contact, validity, cache duration, metadata signing; three request Hosts; response-key rotation) with <= 2 (quick) / <= 3 (thorough) deviations. For each configuration and Host: the metadata must be one well-formed EntityDescriptor; a conformant request of each kind addressed to each advertised SSO / SLO / AttributeService location and sent to the route that location maps onto must get that kind\'s positive outcome; entityID must equal the Issuer of the SSO error reply, callback success and failure replies, assertion, LogoutResponses and attribute-query response; the signing KeyDescriptor must equal the certificate endpoint\'s certificate and verify the issued assertion (also after the response key is rotated); WantAuthnRequestsSigned must be advertised true exactly when an unsigned request is refused.',
+      'Every assignment of 16 configuration dimensions (7 issuer forms incl. host- and Forwarded-derived; each of the six endpoints default / custom with and without leading slash / trailing slash / deep path / external URL; WantAuthRequestsSigned in 11 spellings (the xs:boolean ones and look-alikes True / TRUE / t / T / yes / False); encryption algorithm, organisation, contact, validity, cache duration, metadata signing; three request Hosts; response-key rotation) with <= 2 (quick) / <= 3 (thorough) deviations. For each configuration and Host: the metadata must be one well-formed EntityDescriptor; a conformant request of each kind addressed to each advertised SSO / SLO / AttributeService location and sent to the route that location maps onto must get that kind\'s positive outcome; entityID must equal the Issuer of the SSO error reply, callback success and failure replies, assertion, LogoutResponses and attribute-query response; the signing KeyDescriptor must equal the certificate endpoint\'s certificate and verify the issued assertion (also after the response key is rotated); WantAuthnRequestsSigned must be advertised true exactly when an unsigned request is refused.',
       'External-URL endpoints cannot be mapped onto routes.', '§5 C11')
 
 claim('C15', 'sched+bfs+race',
       'stateless model checking of the real handlers under a cooperative scheduler (depth-first over schedules with an iterated preemption bound), plus exhaustive sequential histories and a free-running race-detector companion',
-      'For 120 pairs (every unordered pair of 15 request bodies incl. each body with itself: SSO accepted / rejected, callbacks for three completed sessions, for an unknown id and for a pending session, logout x2, attribute query x2, metadata for two Hosts, certificate) and 3 triples, every interleaving of the real ServeHTTP calls on ONE provider within preemption bound 1 (quick) / 2 (thorough) is executed: scheduling points are the entries of every repository function and function literal, every storage call, every sync-shim operation and every go statement (all inserted by the build-time overlay; sync is replaced by a scheduler-aware shim so a change that adds a lock or pool is explored, not hung). Oracle per execution: each reply with IDs and signature bytes masked equals the reply the same request gets alone on a fresh provider; no reply or storage call carries another session\'s marker; all response / assertion / metadata IDs over all threads and executions are distinct NCNames; no deadlock or horizon overflow; replaying the default schedule reproduces the identical (thread, point) trace. Companions: every sequence of <= 2 (quick) / <= 3 (thorough) requests on one provider gives each request its solo reply; the same bodies run free in a -race build (32 goroutines x 40 rounds).',
-      'The scheduler does not interleave inside a function body between two points nor inside the Go runtime / third-party libraries; data races there are only reachable by the race companion, which is a free-running (non-exhaustive) run reported as companion evidence. N is 2-3 threads.', '§5 C15')
+      'For 171 pairs (every unordered pair of 18 request bodies incl. each body with itself: SSO accepted / rejected, callbacks for three completed sessions, for an unknown id and for a pending session, logout x2, attribute query x2, metadata for two Hosts, certificate, and an SSO request / attribute query / logout request of ANOTHER party that reuses the requester-chosen id of the first) and 3 triples, every interleaving of the real ServeHTTP calls on ONE provider within preemption bound 1 (quick) / 2 (thorough) is executed at STATEMENT granularity: scheduling points before every statement of every repository function, at every function and function-literal entry, every storage call, every sync / channel / select operation and every go statement (all inserted by the build-time overlay; sync, channel operations and select are routed through scheduler-aware shims so that a change that adds a lock, a pool, a single-flight group or a result channel is explored, not hung; a thread that blocks on something the overlay does not see trips a watchdog and is reported as a harness error, never as a verdict). Oracle per execution: each reply with IDs and signature bytes masked equals the reply the same request gets alone on a fresh provider; a request sent on to the login UI was persisted by itself exactly once and is sent to the id returned for it; no reply or storage call carries another session\'s marker; all response / assertion / metadata IDs over all threads and executions are distinct NCNames; no deadlock or horizon overflow; replaying the default schedule reproduces the identical (thread, point) trace. Companions: every sequence of <= 2 (quick) / <= 3 (thorough) requests on one provider gives each request its solo reply and never repeats a message ID; b1 ; one failing storage operation (8 operations) ; b2 gives b2 the reply it gets on a fresh provider with the same failure; the same bodies run free in a -race build (32 goroutines x 40 rounds).',
+      'The scheduler does not interleave inside one statement nor inside the Go runtime / third-party libraries; among several ready select cases the first in source order is taken; data races there are only reachable by the race companion, which is a free-running (non-exhaustive) run reported as companion evidence. N is 2-3 threads.', '§5 C15')
 
 claim('C01', 'bfs+sched',
       'explicit-state breadth-first search over event histories on the real provider (replay on a fresh world, canonical-state deduplication) plus stateless exploration of callback || completion interleavings under the controlled scheduler',
-      'E2: events are SSO acceptance (POST / Redirect), injected pending records (4 bindings x consumer URL registered / empty, optionally reusing the first session\'s request ID and RelayState), completion of any session, callback of any session with the id in 7 placements (GET query, POST body, body and query naming different sessions, two values, header only, padded, upper-cased) plus unknown / empty / absent id, and arming a one-shot failure of user-info, entity or signing-key retrieval (error, key without certificate, garbage certificate, zero key, certificate of another key). BFS to depth 5 with <= 2 sessions (quick) / depth 6 with <= 3 sessions (thorough); every transition incl. self-loops is executed on the real handler and judged: Success only for a named, existing session whose completion preceded the Done() read and whose user is the subject; every other reply carries no NameID, AttributeValue, SignatureValue, Signature parameter or user marker, and user info is never fetched before the gate. A hidden-state pass extends every state by callback(k) ; callback(any). E3: callback(i) || complete(i) with unbounded preemptions on both bindings and callback(i) || callback(j) || complete(j) at preemption bound 2 / 3; Success additionally requires the completion event to precede that thread\'s Done() read in the recorded total order.',
+      'E2: events are SSO acceptance (POST / Redirect), injected pending records (4 bindings x consumer URL registered / empty, optionally reusing the first session\'s request ID and RelayState), completion of any session, callback of any session with the id in 7 placements (GET query, POST body, body and query naming different sessions, two values, header only, padded, upper-cased) plus unknown / empty / absent id, and arming a one-shot failure of user-info, entity or signing-key retrieval (error, key without certificate, garbage certificate, zero key, certificate of another key, private key of another certificate). BFS to depth 5 with <= 2 sessions (quick) / depth 6 with <= 3 sessions (thorough); every transition incl. self-loops is executed on the real handler and judged: Success only for a named, existing session whose completion preceded the Done() read and whose user is the subject; every other reply carries no NameID, AttributeValue, SignatureValue, Signature parameter or user marker, and user info is never fetched before the gate. A hidden-state pass extends every state by callback(k) ; callback(any). E3 (statement granularity): callback(i) || complete(i) with unbounded preemptions on both bindings, callback(i) || callback(j) || complete(j) at preemption bound 2 / 3 (function-entry granularity) and 1 / 2 (statement granularity), two callbacks of one user (one pending, one done) at bound 2; Success additionally requires the completion event to precede that thread\'s Done() read in the recorded total order.',
       'Sessions <= 2-3, depth <= 5-6; the canonical state key abstracts request IDs / RelayState to "reuses the first session\'s values or not".', '§5 C01')
 
 NOT_YET = {i: 'check not built yet in this revision (planned: see DESIGN.md §5 %s); not claimed until its machinery exists' % i for i in ids}
@@ -147,8 +150,8 @@ def main():
             {'name': 'bfs', 'path': 'harness/internal/props (history loops in c05/c06/c08/c13/c03/c02)', 'serves_properties': sorted(k for k in C if 'bfs' in C[k]['engine']),
              'kind_free_text': 'explicit enumeration of event histories on one real provider (replay on a fresh world per history)'},
             {'name': 'sched', 'path': 'harness/internal/sched', 'serves_properties': sorted(k for k in C if 'sched' in C[k]['engine']),
-             'kind_free_text': 'cooperative scheduler over overlay-inserted scheduling points; DFS over choice sequences with preemption bounding; replay determinism check'},
-            {'name': 'faultx', 'path': 'harness/internal/props/c10.go', 'serves_properties': sorted(k for k in C if C[k]['engine']=='faultx'),
+             'kind_free_text': 'cooperative scheduler over overlay-inserted scheduling points (statement granularity; sync, channel, select and go operations through scheduler-aware shims); DFS over choice sequences with preemption bounding; replay determinism check; watchdog; SCHEDTEST self-test'},
+            {'name': 'faultx', 'path': 'harness/internal/props/c10.go', 'serves_properties': sorted(k for k in C if 'faultx' in C[k]['engine']),
              'kind_free_text': 'exhaustive storage fault-point enumeration (singles, pairs, triples) on re-discovered call traces'},
         ],
         'checks': checks,
